@@ -315,8 +315,16 @@ class Profiles:
         }
         # prepare and save properties (in a dictionary of our own, the given
         # one stays as it is and may be changed or used again by the caller)
-        properties = self._expand_macros(properties.copy(), self._usedMacros)
-        self._profilesProperties[profile] = self._compile_regexes(properties)
+        try:
+            properties = self._expand_macros(properties.copy(), self._usedMacros)
+            self._profilesProperties[profile] = self._compile_regexes(properties)
+        except Exception:
+            # a profile which cannot be compiled (unknown macro, invalid
+            # regex) is not registered at all
+            self._profileNames.pop()
+            del self._rawProfiles[profile]
+            self._resetProperties()
+            raise
 
         self.__update_knownNames()
 
